@@ -12,7 +12,9 @@ REG.spec('states.py:_task_state_progress',
     params   = dict(uid=T.Str, current=OStr, target=OStr),
     returns  = T.Tuple(OStr, T.List(OStr)),
     requires = ['is_tstate(current)', 'is_tstate(target)'],
-    raises   = {'ValueError': 'current in [DONE, FAILED] and target in FINAL'},
+    # C06: no (current, target) pair raises; contradictory final states are
+    # discarded (docstring: task_state_progress(DONE, FAILED) --> [DONE, []])
+    raises   = {},
     ensures  = [
       ('never-backward', 'tv(result[0]) >= tv(current)'),
       ('new-is-current-or-target', 'result[0] == current or result[0] == target'),
@@ -22,6 +24,9 @@ REG.spec('states.py:_task_state_progress',
       ('passed-length', 'implies(tv(target) > tv(current), len(result[1]) == tv(target) - tv(current))'),
       ('passed-fills-gap', 'forall(lambda j: implies(0 <= j < len(result[1]) - 1, result[1][j] == rps._task_state_inv[tv(current) + 1 + j]))'),
       ('passed-ends-in-target', 'implies(len(result[1]) > 0, result[1][len(result[1]) - 1] == target)'),
+      ('passed-intermediates-not-final', 'forall(lambda j: implies(0 <= j < len(result[1]) - 1, result[1][j] not in FINAL and result[1][j] is not None))'),
+      ('passed-empty-unless-advance', 'implies(tv(target) <= tv(current), len(result[1]) == 0)'),
+      ('passed-known-states', 'forall(lambda j: implies(0 <= j < len(result[1]), is_tstate(result[1][j])))'),
       ('passed-strictly-increasing', 'forall(lambda j: implies(0 <= j < len(result[1]), tv(result[1][j]) == tv(current) + 1 + j))'),
     ],
     locals   = dict(passed=T.List(OStr)),
